@@ -158,7 +158,7 @@ def run_shard(ctx, shard):
     circles = ctx.extra['circles']
     for i in range(shard['n']):
         case = {'scale': rng.choice([8.0, 8.0, 1.0, 0.5, 20.0])}
-        kind = rng.choice(['box', 'rbox', 'circle', 'nested', 'outside', 'legend_only', 'two', 'multi'])
+        kind = rng.choice(['box', 'rbox', 'circle', 'nested', 'outside', 'legend_only', 'two', 'multi', 'circle_in_box'])
         tags = rng.sample(NAMES, rng.randint(1, 3))
         tag = '{' + ','.join(tags) + '}'
         other = rng.choice(['', 'hi', 'p q', 'label'])
@@ -195,6 +195,30 @@ def run_shard(ctx, shard):
             pad = rng.randint(1, innerw - len(tag) - 1)
             c[mid] = ' ' * lead + rowm.strip()[0] + ' ' * pad + tag + ' ' * (innerw - pad - len(tag)) + rowm.strip()[-1]
             case.update(body=c, shapes=[('circle', None, tags)], absent=[tag], present=[], kind=kind)
+        elif kind == 'circle_in_box':
+            # a circle inside a box, each carrying its own tag: the innermost shape gets the tag
+            art = [c for c in circles if len(c) >= 5]
+            c = list(rng.choice(art))
+            mid = len(c) // 2
+            rowm = c[mid]
+            lead = len(rowm) - len(rowm.lstrip())
+            innerw = len(rowm.strip()) - 2
+            ctag = '{' + tags[0] + '}'
+            if rowm.strip()[1:-1].strip() != '' or innerw < len(ctag) + 2:
+                continue
+            c[mid] = ' ' * lead + rowm.strip()[0] + ' ' + ctag + ' ' * (innerw - 1 - len(ctag)) + rowm.strip()[-1]
+            cwid = max(len(r) for r in c)
+            btags = rng.sample([n for n in NAMES if n != tags[0]], 1)
+            btag = '{' + btags[0] + '}'
+            w = max(cwid + 4, len(btag) + 2)
+            # blank rows / columns keep the circle, the box tag and the box border in separate spans
+            rows = ['+' + '-' * w + '+', '|' + ' ' * w + '|']
+            for r in c:
+                rows.append('|  ' + r + ' ' * (w - len(r) - 2) + '|')
+            rows.append('|' + ' ' * w + '|')
+            rows.append('| ' + btag + ' ' * (w - len(btag) - 1) + '|')
+            rows.append('+' + '-' * w + '+')
+            case.update(body=rows, shapes=[('rect', (0, 0, w + 1, len(rows) - 1), btags), ('circle', None, [tags[0]])], absent=['{'], present=[], kind=kind, depth=2)
         elif kind == 'nested':
             depth = rng.randint(2, 4)
             levels = [[rng.sample(NAMES, rng.randint(1, 2))] for _ in range(depth)]
